@@ -426,6 +426,61 @@ func runC18(c *mon.Ctx) {
 		}
 	}
 
+	// phase 4e: draws a true random source can deliver but a generator never will: all bits clear, all bits set, only
+	// (or all but) the version / variant bits, a single bit. Each is an honest draw: the identifier is that block, masked
+	type forcedDraw struct {
+		block [16]byte
+		id    string
+	}
+	var forcedIDs []forcedDraw
+	{
+		sp, _, _ := NewSP(BaseTime(c.Seed))
+		var blocks [][16]byte
+		var zero, ones, onlyVV, allButVV, lowBit, highBit [16]byte
+		for i := range ones {
+			ones[i], allButVV[i] = 0xFF, 0xFF
+		}
+		onlyVV[6], onlyVV[8] = 0xF0, 0xC0
+		allButVV[6], allButVV[8] = 0x0F, 0x3F
+		lowBit[15], highBit[0] = 0x01, 0x80
+		blocks = append(blocks, zero, ones, onlyVV, allButVV, lowBit, highBit, maskV4(zero), maskV4(ones))
+		for i, b := range blocks {
+			for kind := 0; kind < 4; kind++ {
+				blk := b
+				if kind > 0 && i >= 2 {
+					blk[3] = byte(kind) // keep the forced identifiers distinct from each other where that is possible
+				}
+				spy.pending = append([]byte(nil), blk[:]...)
+				id := ""
+				pv, _ := mon.Guard(func() {
+					var doc *etree.Document
+					var err error
+					switch kind {
+					case 0:
+						id = "_" + uuid.NewV4().String()
+						return
+					case 1:
+						doc, err = sp.BuildAuthRequestDocumentNoSig()
+					case 2:
+						doc, err = sp.BuildLogoutRequestDocumentNoSig("u", "s")
+					case 3:
+						doc, err = sp.BuildLogoutResponseDocumentNoSig(saml2.StatusCodeSuccess, "_r")
+					}
+					if err == nil && doc != nil && doc.Root() != nil {
+						id = doc.Root().SelectAttrValue("ID", "")
+					}
+				})
+				if spy.pending != nil {
+					spy.pending = nil
+					continue
+				}
+				if pv != nil {
+					id = fmt.Sprintf("(panic: %v)", pv)
+				}
+				forcedIDs = append(forcedIDs, forcedDraw{blk, id})
+			}
+		}
+	}
 	// phase 6: signing fails now and then (the signing device is unavailable). The application keeps using the unsigned
 	// document it had built, or drops it; either way no later message may carry an identifier that was already handed out
 	var afterFailure []string
@@ -554,6 +609,19 @@ func runC18(c *mon.Ctx) {
 		check(id[1:], true)
 	}
 	c.Count("identifiers_equal_to_a_caller_argument", int64(len(foreseenIDs)))
+	for _, f := range forcedIDs {
+		total++
+		want := maskV4(f.block)
+		b, ok := fastParseUUID(strings.TrimPrefix(f.id, "_"))
+		if !strings.HasPrefix(f.id, "_") || !uuidRe.MatchString(f.id[1:]) || !ok || b != want {
+			cs.Violation("extreme-draw-mishandled", "the source delivered the block %x; the identifier made of it is %q, expected _%x-%x-%x-%x-%x", f.block, f.id, want[0:4], want[4:6], want[6:8], want[8:10], want[10:16])
+			continue
+		}
+		if spy.uuidRds[b] > 0 {
+			spy.uuidRds[b]--
+		}
+	}
+	c.Count("identifiers_from_extreme_draws", int64(len(forcedIDs)))
 	for _, id := range afterFailure {
 		if !strings.HasPrefix(id, "_") {
 			cs.Violation("identifier-format", "message ID %q built around a signing failure does not start with an underscore", id)
